@@ -160,6 +160,17 @@ fn cases(thorough: bool) -> (Vec<Case>, Value) {
             progs.extend(with_flushes(&p2, false));
         }
     }
+    // two flushes whose distance in the compression layer is exactly one or two blocks (a FileContent block adds 17
+    // bytes of header to its data), after a first flush at several offsets: a flush that finds the in-block offset
+    // unchanged must still flush
+    for e in [Entropy::Noise, Entropy::Constant] {
+        for first in [1usize, 5, 40] {
+            for k in [1usize, 2] {
+                progs.push(Program::new(vec![Op::Start(0), Op::Append(0, first), Op::Flush, Op::Append(0, k * BLOCK - 17), Op::Flush, Op::Append(0, 3), Op::End(0)], e));
+                progs.push(Program::new(vec![Op::Start(0), Op::Append(0, first), Op::Flush, Op::Append(0, k * BLOCK - 34 - 1), Op::Append(0, 1), Op::Flush, Op::End(0)], e));
+            }
+        }
+    }
     // program tree with a flush at every position
     let sizes = [1usize, CHUNK + 1, 300];
     let ents: &[Entropy] = if thorough { &[Entropy::Constant, Entropy::Noise, Entropy::Pattern] } else { &[Entropy::Constant, Entropy::Noise] };
@@ -189,6 +200,7 @@ fn cases(thorough: bool) -> (Vec<Case>, Value) {
     }
     let bounds = json!({
         "ladder": "one-file and two-interleaved-file programs with piece sizes {1,7,chunk+1,block+1,600} x 3 entropies, a flush at every position (thorough: every pair of positions)",
+        "double_flush": "two flushes exactly one or two compression blocks apart (block headers counted), first flush after 1, 5 or 40 bytes",
         "tree": "all valid programs with <=2 (thorough 3) files, <=4 (5) ops, <=2 appends of sizes {1,chunk+1,300}, entropies constant/noise(/pattern), a flush at every position",
         "configurations": "4 layer combinations x levels {0,5,11}; both repair modes when encrypted; every fifth program also with appends and flushes going through helpers::StreamWriter (layers none / compress)",
     });
